@@ -253,7 +253,21 @@ def analyse(res, b, r, preds):
 
 def one_recording(res, sp):
     b = P.baseline(res, sp)
-    if b.ops is None or b.vp is None:
+    if b.ops is None:
+        return
+    if b.vp is None:
+        # the fault-free trace is no longer the model's (reported as such by the baseline): the schedules are still run,
+        # judged by the property's oracle alone -- that is the search for a failing input
+        pts = [(b, n, e, p) for n in range(1, b.n + 1) for e, p in ((P.ENOSPC, 0), (P.EIO, 1), (P.ENOSPC, 2))]
+        if res.tier == "quick" and len(pts) > 240:
+            res.rng.shuffle(pts)
+            pts = pts[:240]
+        with ThreadPoolExecutor(max_workers=6) as ex:
+            for r in ex.map(one_fault, pts):
+                res.count("fault schedules without a model prediction (oracle only)")
+                analyse(res, b, r, {})
+                shutil.rmtree(r["work"], True)
+        shutil.rmtree(b.work, True)
         return
     points = [(b, n, e, p) for n in range(1, b.n + 1) for e in (P.ENOSPC, P.EIO) for p in (0, 1)]
     budget = 110 if sp.get("apis") else 170
